@@ -72,7 +72,7 @@ def replay_grad(ctx, gates, obs):
         model = Model()
         loss = model()
         want_loss = zo(obs['loss']['val']).real / SQ2 ** obs['loss']['e']
-        if abs(loss.item() - want_loss) > TOL:
+        if core.gt(abs(loss.item() - want_loss), TOL):
             ctx.violation('C04:CircuitTorchWrapper:forward', 'forward value of the torch wrapper differs from the exact loss', data)
             return
         loss.backward()
@@ -122,7 +122,7 @@ def replay_grad(ctx, gates, obs):
                 for j in range(len(holder_vals[key])):
                     c = [cc for cc, (k2, j2) in holder_idx.items() if k2 == key and j2 == j][0]
                     flat += exp[c]
-        if abs(fval - want_loss) > TOL or len(grad) != len(flat) or np.abs(np.array(grad) - np.array(flat)).max() > TOL:
+        if core.gt(abs(fval - want_loss), TOL) or len(grad) != len(flat) or core.gt(np.abs(np.array(grad) - np.array(flat)).max(), TOL):
             ctx.violation('C04:hf_model_wrapper:flat-gradient', 'flat (loss, gradient) handed to the optimizer differs from the exact values in sorted-parameter order', data)
     except Exception as ex:
         ctx.violation('C04:exception:circuit-gradient', type(ex).__name__ + ': ' + str(ex)[:200], data)
@@ -148,7 +148,7 @@ def run_kl(ctx):
             ops = [[([qq], _P[c]) for qq, c in enumerate(lt) if c] for lt in errs]
             ip = numqi.qec.knill_laflamme_inner_product(q, ops)
             want = np.array([[[complex(a[0], a[1]) for a in row] for row in m] for m in obs['ip']])
-            if np.abs(ip - want).max() > TOL:
+            if core.gt(np.abs(ip - want).max(), TOL):
                 ctx.violation('C04:knill_laflamme_inner_product:forward', 'inner products differ from the exact values', data)
                 continue
             qt = torch.tensor(q, dtype=torch.complex128, requires_grad=True)
@@ -157,7 +157,7 @@ def run_kl(ctx):
             g = qt.grad.detach().numpy()
             wantg = np.array([[complex(a[0], a[1]) for a in row] for row in obs['grad']])
             ctx.evaluations += 1
-            if np.abs(g - wantg).max() > TOL:
+            if core.gt(np.abs(g - wantg).max(), TOL):
                 ctx.violation('C04:knill_laflamme_inner_product:backward', 'hand-written backward differs from the formal derivative of the sesquilinear form', dict(data, expected=obs['grad'], got=[[[z.real, z.imag] for z in row] for row in g]))
         except Exception as ex:
             ctx.violation('C04:exception:knill_laflamme_inner_product', type(ex).__name__ + ': ' + str(ex)[:200], data)
@@ -182,7 +182,7 @@ def run_sylvester(ctx):
                 At = torch.tensor(A if not batched else np.stack([A, A]), dtype=torch.float64, requires_grad=True)
                 out = PSDMatrixSqrtm.apply(At) if cfg['r'] == 1 else _PSDMatrixSqrtmRepeat.apply(At, 2)
                 got = out.detach().numpy()
-                if np.abs((got if not batched else got[1]) - root).max() > 1e-9:
+                if core.gt(np.abs((got if not batched else got[1]) - root).max(), 1e-9):
                     ctx.violation('C04:PSDMatrixSqrtm:forward', 'matrix root differs from the exact root (repeat=%d)' % cfg['r'], data)
                     break
                 Gt = torch.tensor(G)
@@ -190,7 +190,7 @@ def run_sylvester(ctx):
                 loss.backward()
                 gr = At.grad.numpy() if not batched else At.grad.numpy()[1]
                 ctx.evaluations += 1
-                if np.abs(gr - X).max() > 1e-8:
+                if core.gt(np.abs(gr - X).max(), 1e-8):
                     kind = 'degenerate' if len(set(map(tuple, cfg['t']))) < len(cfg['t']) else 'generic'
                     ctx.violation('C04:PSDMatrixSqrtm:backward:%s' % kind, 'backward of the matrix root (repeat=%d, %s spectrum%s) differs from the solution of the Sylvester equation' % (cfg['r'], kind, ', batched' if batched else ''), dict(data, expected=X.tolist(), got=gr.tolist()))
                     break
